@@ -267,7 +267,24 @@ pub fn public_proj(ts: &TypeSpace, t: &Type) -> Value {
         TypeDetails::String => kind = "string",
     }
     let _ = ts;
-    json!({"name": name, "ident": ident, "kind": kind, "edges": edges, "builtin": builtin})
+    // every path the reported identifiers mention: {abs: leading ::, segs: [..]}
+    let paths_of = |ts: proc_macro2::TokenStream| -> Vec<Value> {
+        match syn::parse2::<syn::Type>(ts) {
+            Err(_) => vec![json!({"abs": false, "segs": ["<unparsable>"]})],
+            Ok(ty) => inv::ty_paths(&ty)
+                .iter()
+                .map(|p| {
+                    let abs = p.starts_with("::");
+                    let segs: Vec<&str> = p.trim_start_matches("::").split("::").collect();
+                    json!({"abs": abs, "segs": segs})
+                })
+                .collect(),
+        }
+    };
+    let ident_paths = guarded(|| paths_of(t.ident())).unwrap_or_default();
+    let param_paths = guarded(|| paths_of(t.parameter_ident())).unwrap_or_default();
+    json!({"name": name, "ident": ident, "kind": kind, "edges": edges, "builtin": builtin,
+           "ident_paths": ident_paths, "param_paths": param_paths})
 }
 
 pub fn impl_flags(t: &Type) -> Value {
